@@ -607,7 +607,10 @@ def ravel_dimensions(
         True
     """
     data_array = move_dimensions_to_end(data_array, dimensions)
-    new_shape = data_array.shape[:-len(dimensions)] + (-1,)
+    # The size of the linear dimension is given explicitly.
+    # numpy can not infer it when one of the other dimensions has no elements.
+    linear_size = int(numpy.prod(data_array.shape[-len(dimensions):]))
+    new_shape = data_array.shape[:-len(dimensions)] + (linear_size,)
     new_data = data_array.values.reshape(new_shape)
     existing_dims = data_array.dims[:-len(dimensions)]
 
